@@ -150,7 +150,34 @@ Fixpoint walk_lines_aux (tb : list (Z * Z)) (cur : bytes) (tm : Z) : list (bytes
     if b =? 10 then (rev_append (b :: cur) [], Z.max tm t) :: walk_lines_aux r [] (Z.max tm t)
     else walk_lines_aux r (b :: cur) (Z.max tm t)
   end.
-Definition walk_lines (tb : list (Z * Z)) : list (bytes * Z) := walk_lines_aux tb [] 0.
+Definition walk_lines (start : Z) (tb : list (Z * Z)) : list (bytes * Z) := walk_lines_aux tb [] start.
+
+
+(* ---------- hypotheses of C08 as executable predicates ---------- *)
+(* a timed frame keeps the in-frame timing: its header is complete less than 2 s after its
+   first byte, its payload less than 2 s after the header *)
+Definition frame_timely (tf : list (Z * Z)) : bool :=
+  match tf with
+  | [] => false
+  | (t1, _) :: _ =>
+    match split_tr 4 tf [] with
+    | Some (h, pl) => let t4 := tmax h t1 in (t4 <? t1 + inframe) && (tmax pl t4 <? t4 + inframe)
+    | None => false
+    end
+  end.
+(* the timed stream [tb], cut at the DECLARED frame lengths (4 + payload length), consists of
+   timely frames and nothing else *)
+Fixpoint frames_timely (tb : list (Z * Z)) (ps : list bytes) : bool :=
+  match ps with
+  | [] => match tb with [] => true | _ => false end
+  | p :: r =>
+    match split_tr (4 + zlen p) tb [] with
+    | Some (tf, rest) => frame_timely tf && frames_timely rest r
+    | None => false
+    end
+  end.
+Definition eol (crlf : bool) : bytes := if crlf then [13; 10] else [10].
+Definition no_lf (l : bytes) : bool := forallb (fun c => negb (c =? 10)) l.
 
 (* ASCII white space as trimmed from a line *)
 Definition ws (c : Z) : bool := (c =? 32) || ((9 <=? c) && (c <=? 13)).
